@@ -372,7 +372,7 @@ func (s *engine) sectionSubtle(seed uint64) {
 			}}, nil
 		}})
 		if _, ct, err := hpke.VerifXWingEncapsulate(cl(xpk)); err == nil {
-			e.run(spec{api: "internal:hybrid/internal/xwing.Decapsulate", det: true, ins: []in1{{"ciphertext", ct}, {"recipientPrivKey", xsk}}, mk: func() (*inst, error) {
+			e.run(spec{api: "internal:hybrid/internal/xwing.Decapsulate", det: true, rndIn: map[int]bool{0: true}, ins: []in1{{"ciphertext", ct}, {"recipientPrivKey", xsk}}, mk: func() (*inst, error) {
 				return &inst{call: func(ins [][]byte) ([][]byte, string) {
 					out, err := hpke.VerifXWingDecapsulate(ins[0], ins[1])
 					return [][]byte{out}, errS(err)
